@@ -375,3 +375,24 @@ pub proof fn lemma_fl_number_len(t: TypedReprRef)
         }
     }
 }
+
+/// a non-zero PreparedMedium as PreparedMedium::new builds it starts with a non-zero digit
+pub proof fn lemma_fl_medium_lead(p: PreparedMedium)
+    requires medium_inv(p), word_digits(p.top_group) >= 1, medium_value(p) >= 1,
+        word_digits(p.top_group) > 1 ==> p.top_group.digits@[p.top_group.start_index as int] != 0,
+        p.num_low_groups > 0 ==> p.top_group.digits@[p.top_group.start_index as int] != 0,
+    ensures p.top_group.digits@[p.top_group.start_index as int] != 0,
+{
+    let (td, ts) = (p.top_group.digits@, p.top_group.start_index as int);
+    if word_digits(p.top_group) == 1 && p.num_low_groups == 0 {
+        let r = p.radix as int;
+        assert(dval(td, ts + 1, ts + 1, r) == 0);
+        assert(ipow(r, 0) == 1);
+        assert(ipow(rpw(p.radix), 0) == 1);
+        assert(hv(p.low_groups@, 0, 0, rpw(p.radix)) == 0);
+        let d = td[ts] as int;
+        assert(d * 1 == d);
+        assert(dval(td, ts, ts + 1, r) == d);
+        assert(medium_value(p) == d * 1 + 0);
+    }
+}
